@@ -122,3 +122,27 @@ Definition step_minimal (outs : list output) (seg : list line) : Prop :=
     forall pre1 m1 post1, pre = pre1 ++ Some m1 :: post1 ->
       exists o, In o outs /\ o_inv o = false /\
                 forall m', In (Some m') (pre1 ++ [Some m1]) -> ~ accepts o m'.
+
+(** * No step is vacuous: the tool examines at least one emitted message in
+    every step (a step made of forbidden outputs only still looks at the next
+    message; [step_minimal] segments end in a JSON line).  The segmentation
+    that explains a pass must give every step a JSON line. *)
+Definition has_json (seg : list line) : bool :=
+  existsb (fun l : line => match l with Some _ => true | None => false end) seg.
+
+Definition session_sound_nv (steps : list (list output)) (chunks : list (list line)) : Prop :=
+  exists segs, causal segs chunks /\
+               Forall2 (fun outs seg => step_ok outs seg /\ has_json seg = true) steps segs.
+
+Fixpoint sound_nv_from (steps : list (list output)) (chunks : list (list line))
+         (pending : list line) : bool :=
+  match steps with
+  | [] => true
+  | outs :: more =>
+      existsb (fun p => step_ok_b outs (fst p) && has_json (fst p)
+                        && sound_nv_from more (tl chunks) (snd p))
+              (splits (pending ++ hd [] chunks))
+  end.
+
+Definition session_sound_nv_b (steps : list (list output)) (chunks : list (list line)) : bool :=
+  sound_nv_from steps chunks [].
